@@ -76,7 +76,13 @@ fn run<G: GraphLike + PartialEq>(ga: &Value, ha: &Value, be: &str, r: &mut StdRn
     }
     // RE-USE of the receiving object (seed C11_f): the first plug deletes the seam's boundary vertices, so the vector backend
     // holds free names when the SECOND plug appends its operand. h^dagger always fits behind g ; h.
-    if g.outputs().len() == h.inputs().len() {
+    // (not where h has a wire joining two of its own inputs or two of its own outputs: there the first or the second plug runs
+    // into the recorded finding F-C11-3, which the plain `plug` event already reports)
+    let joins = |side: &str| {
+        let bs: Vec<u64> = ha[side].as_array().unwrap().iter().map(|x| x.as_u64().unwrap()).collect();
+        ha["e"].as_array().unwrap().iter().any(|e| bs.contains(&e["u"].as_u64().unwrap()) && bs.contains(&e["w"].as_u64().unwrap()))
+    };
+    if g.outputs().len() == h.inputs().len() && !joins("ins") && !joins("outs") {
         out.push(ev("plug2", be, json!({}), || {
             let mut x = g.clone();
             x.plug(&h);
